@@ -13,12 +13,22 @@ inductive FKind where
   | prim (k : KType) | primArr (k : KType) | struct (name : List Nat) | structArr (name : List Nat)
 deriving DecidableEq, Repr
 
+/-- the default the definition states for a field at a version -/
+inductive ExpDflt where
+  | noDefault                 -- the field must be given
+  | value (v : Value)         -- an explicit or implicit primitive default
+  | emptyArray                -- a tagged array defaults to the empty array
+  | structOfDefaults          -- a tagged structure all of whose members have defaults
+  | unsupported               -- a spelling outside the supported subset
+deriving Repr
+
 structure ExpField where
   name : List Nat          -- Python attribute name
   kind : FKind
   nullable : Bool
   tag : Option Nat
-deriving DecidableEq, Repr
+  dflt : ExpDflt := .noDefault
+deriving Repr
 
 structure ExpClass where
   name : List Nat
@@ -52,17 +62,67 @@ def expNullable (f : FieldDef) (v : Nat) (kind : FKind) : Bool :=
   | .struct _ => nv
   | .structArr _ => nv
 
+/-- the value an explicit `default` denotes for Kafka type `k` (decimal / 0x integers, booleans in
+    any case, strings, `null`, zero floats, millisecond durations, `-1` = null timestamp) -/
+def explicitDefault (k : KType) (s : List Nat) : ExpDflt :=
+  if s == strOf "null" then .value .none
+  else match k with
+  | .string => .value (.str (s.map (fun c => c.toUInt8)))
+  | .int8 | .int16 | .int32 | .int64 | .uint16 | .uint32 | .uint64 | .errorCode =>
+    (match parseInt s with | some i => .value (.int i) | none => .unsupported)
+  | .bool => (match parseBool s with | some b => .value (.bool b) | none => .unsupported)
+  | .float64 => (match parseInt s with
+      | some _ => .unsupported        -- integer spelling of a float: outside the supported subset
+      | none => match parseFloatBits s with | some b => .value (.float b) | none => .unsupported)
+  | .timedeltaI32 | .timedeltaI64 =>
+    (match parseInt s with | some i => .value (.timedelta (i * 1000)) | none => .unsupported)
+  | .datetimeI64 => if s == strOf "-1" then .value .none else .unsupported
+  | _ => .unsupported
+
+/-- an **explicit default always wins**; otherwise a tagged ignorable primitive takes its type's
+    zero value (None for types kio represents as absent), a tagged array is empty -/
+def expDefault (_d : MsgDef) (f : FieldDef) (v : Nat) (kind : FKind) : ExpDflt :=
+  let tagged := rangeMatches f.tagged v
+  match kind with
+  | .prim k =>
+    (match f.dflt with
+     | some s => explicitDefault k s
+     | none =>
+       if tagged && f.ignorable then
+         (match k with
+          | .int8 | .int16 | .int32 | .int64 | .uint16 | .uint32 | .uint64 | .errorCode => .value (.int 0)
+          | .float64 => .value (.float 0)
+          | .bool => .value (.bool false)
+          | _ => .value .none)
+       else .noDefault)
+  | .primArr _ => .emptyArray
+  | .structArr _ => if tagged then .emptyArray else .noDefault
+  | .struct _ =>
+    (match f.dflt with
+     | some _ => .value .none
+     | none =>
+       if tagged then
+         (match f.fields with
+          | some fs => if fs.all (fun g => g.dflt.isSome && (match g.ty with | .prim _ | .struct _ => g.fields.isSome || (match g.ty with | .prim _ => true | _ => false) | _ => false))
+                       then .structOfDefaults
+                       else if f.ignorable then .value .none else .noDefault
+          | none => if f.ignorable then .value .none else .noDefault)
+       else .noDefault)
+
 def expField (builtins : List (List Nat)) (f : FieldDef) (v : Nat) : ExpField :=
   let tag := if rangeMatches f.tagged v then f.tag else none
   match f.ty with
   | .prim p =>
     let (k, n) := primKind f.name p
-    { name := toSnakeCase builtins n, kind := .prim k, nullable := expNullable f v (.prim k), tag }
+    { name := toSnakeCase builtins n, kind := .prim k, nullable := expNullable f v (.prim k), tag,
+      dflt := expDefault ⟨[], .data, none, .empty, .empty, [], []⟩ f v (.prim k) }
   | .primArr p =>
     { name := toSnakeCase builtins f.name, kind := .primArr (ktypeOfPrimT p),
-      nullable := expNullable f v (.primArr (ktypeOfPrimT p)), tag }
-  | .struct n => { name := toSnakeCase builtins f.name, kind := .struct n, nullable := expNullable f v (.struct n), tag }
-  | .structArr n => { name := toSnakeCase builtins f.name, kind := .structArr n, nullable := expNullable f v (.structArr n), tag }
+      nullable := expNullable f v (.primArr (ktypeOfPrimT p)), tag, dflt := .emptyArray }
+  | .struct n => { name := toSnakeCase builtins f.name, kind := .struct n, nullable := expNullable f v (.struct n), tag,
+                   dflt := expDefault ⟨[], .data, none, .empty, .empty, [], []⟩ f v (.struct n) }
+  | .structArr n => { name := toSnakeCase builtins f.name, kind := .structArr n, nullable := expNullable f v (.structArr n), tag,
+                      dflt := expDefault ⟨[], .data, none, .empty, .empty, [], []⟩ f v (.structArr n) }
 
 def fieldsAt (fs : List FieldDef) (v : Nat) : List FieldDef := fs.filter (fun f => f.versions.matches v)
 
